@@ -45,10 +45,25 @@ def diff(a, b):
     return {k: (a[k], b[k]) for k in a if a[k] != b[k]}
 
 
+class FlagHook:
+    """Move hook that supplies a word when the call carries a flag word (deep-copyable, no closure state)."""
+
+    def __init__(self, flag, key, value, fresh):
+        self.flag, self.key, self.value, self.fresh = flag, key, value, fresh
+
+    def __call__(self, origin, target, params, state):
+        if params.get(self.flag) is None:
+            return params
+        out = type(params)(params) if self.fresh else params
+        out[self.key] = self.value
+        return out
+
+
 class C05System(BuilderSystem):
-    def __init__(self, label, bounded):
+    def __init__(self, label, bounded, hooks=False):
         self.label = label
         self.bounded = bounded
+        self.hooks = hooks
         self.cfg = {}
 
     def setup(self, st):
@@ -62,6 +77,11 @@ class C05System(BuilderSystem):
             g.set_bounds("bed-temperature", 0, 100)
             g.set_bounds("hotend-temperature", 0, 250)
             g.set_bounds("chamber-temperature", 0, 70)
+        if self.hooks:
+            # words supplied by hooks are validated like the caller's own: a rejected move must still have no effect
+            st.g.add_hook(FlagHook("P", "F", 5, fresh=True))        # below the feed-rate minimum
+            st.g.add_hook(FlagHook("Q", "S", 80, fresh=False))      # above the tool-power maximum
+            st.g.add_hook(FlagHook("I", "E", float("nan"), fresh=True))
 
     def build_ops(self):
         return [
@@ -118,6 +138,13 @@ class C05System(BuilderSystem):
         return ops
 
     def ops(self, st):
+        extra = []
+        if self.hooks:
+            for kind in ("move", "move_absolute"):
+                extra += [[kind, [], {"x": 1, "P": 1}], [kind, [], {"y": 1, "F": 50, "Q": 1}], [kind, [], {"x": 1, "I": 1, "F": 50}],
+                          [kind, [[1.5, 1.5, 0.5]], {"Q": 2, "P": 2}]]
+            extra += [["trace.polyline", [[[1, 1], [2, 1]]], {"Q": 1}]]
+            return self.build_ops() + extra + self.failing_ops()[::4]
         return self.build_ops() + self.failing_ops()
 
     def step(self, st, op):
@@ -183,7 +210,8 @@ ASSUMPTIONS = ["multi-statement calls (tracer shapes, emergency_halt) and wrong 
 
 def systems(tier):
     d = 2 if tier == "quick" else 3
-    return [("bounded", C05System("bounded", True), d, None), ("unbounded", C05System("unbounded", False), d, None)]
+    return [("bounded", C05System("bounded", True), d, None), ("unbounded", C05System("unbounded", False), d, None),
+            ("bounded-hooks", C05System("bounded-hooks", True, hooks=True), d, None)]
 
 
 def run(tier, seed):
